@@ -20,9 +20,9 @@ import (
 	"verif/hdr"
 	"verif/inst"
 	"verif/lmdbx"
-	"verif/wire"
 	"verif/rng"
 	"verif/runner"
+	"verif/wire"
 )
 
 // Ver is a logical version of one key.
@@ -30,6 +30,9 @@ type Ver struct {
 	TS  uint64 `json:"ts"`
 	Del bool   `json:"del"`
 	Val string `json:"val"`
+	// F: format version of the snapshot that delivers this version (0 = the configuration's); the mixed family merges
+	// entries produced by writers of different format versions into one key
+	F uint32 `json:"f,omitempty"`
 }
 
 func (v Ver) String() string {
@@ -45,7 +48,7 @@ type Cfg struct {
 	Cutoff    uint64 `json:"cutoff"`
 	DefaultTS uint64 `json:"default_ts"`
 	Padding   bool   `json:"padding"`
-	Extra     int    `json:"stored_extra_blocks"` // extension blocks on stored values ("written by others")
+	Extra     int    `json:"stored_extra_blocks"`         // extension blocks on stored values ("written by others")
 	Foreign   uint32 `json:"foreign_flag_bits,omitempty"` // flag bits outside the synced set on incoming entries (newer/foreign writer)
 }
 
@@ -117,6 +120,10 @@ func mergeReal(stored []byte, kv snapshot.KV, cfg Cfg) ([]byte, error) {
 // effective incoming version as the documentation defines it for this config
 func effective(v Ver, cfg Cfg) Ver {
 	e := v
+	if v.F != 0 {
+		cfg.Format = v.F
+	}
+	e.F = 0
 	if cfg.Format < 2 && !e.Del && e.Val == "" {
 		e.Del = true // version 1: an empty value denotes a deletion
 	}
@@ -150,6 +157,9 @@ func pairKey(a, b Ver) string {
 // step merges v onto stored (nil = absent), checks the per-step clauses and returns the new stored bytes.
 func (lc *lawsChecker) step(stored []byte, v Ver, ctx string) ([]byte, bool) {
 	cfg := lc.cfg
+	if v.F != 0 {
+		cfg.Format = v.F
+	}
 	kv := toKV(v, cfg.Format)
 	out, err := mergeReal(stored, kv, cfg)
 	wit := map[string]any{"cfg": cfg, "context": ctx, "incoming": v, "stored_hex": fmt.Sprintf("%x", stored), "result_hex": fmt.Sprintf("%x", out)}
@@ -415,6 +425,15 @@ func c02Cases(tier string, seed int64, extras []int, idPrefix string, foreign ..
 			}
 		}
 	}
+	// mixed producers: format version per entry, not per configuration
+	for _, cut := range []uint64{0, 2} {
+		for _, pad := range []bool{false, true} {
+			cfg := Cfg{Format: 3, Cutoff: cut, Padding: pad, Extra: extras[0]}
+			for sl := 0; sl < 6; sl++ {
+				cs = append(cs, runner.MkCase("mixed", fmt.Sprintf("%smixed-c%d-p%v-x%d-s%d", idPrefix, cut, pad, extras[0], sl), c02Params{Cfg: cfg, Part: "mixed", Slice: sl, Slices: 6}))
+			}
+		}
+	}
 	nr, cnt := 16, 2000
 	if tier == "thorough" {
 		nr, cnt = 2000, 5000
@@ -431,7 +450,7 @@ func C02() *runner.Property {
 		ID:    "C02",
 		Level: "exploration",
 		Rule: "the real NativeIterator.Merge (and strategy.Update inside a real LMDB write transaction) is driven over the complete small domain: stored in {absent} + V, incoming in V, all pairs and all triples in all 6 orders, " +
-			"V = timestamps {0,1,2,3,2^62} x {live \"\", \"a\", \"b\", \"ab\", deleted}; format versions 1-3; stale-marker cutoffs {0,2,3,2^63}; default timestamp {0,2}; header padding on/off; plus seeded random triples with real-clock timestamps and long values. " +
+			"V = timestamps {0,1,2,3,2^62} x {live \"\", \"a\", \"b\", \"ab\", deleted}; format versions 1-3 per configuration and (family mixed) per entry - an old format-1 producer next to current ones, all pairs with equal timestamps and all triples with a tie; stale-marker cutoffs {0,2,3,2^63}; default timestamp {0,2}; header padding on/off; plus seeded random triples with real-clock timestamps and long values. " +
 			"Oracles: per step (never backwards, non-winning => stored bytes untouched, newer wins, ties consistent across all orders via a tie table, stale markers not created), per set (all orders give the same content, up to the documented retention exception). " +
 			"Non-trivial = the case evaluated triples of pairwise distinct versions; distinct by configuration.",
 		Assumptions: []string{
@@ -463,6 +482,8 @@ func runC02(c runner.Case, env *runner.Env) (res runner.Result) {
 		runRandom(lc, p, &res)
 	case "loadonce":
 		runLoadOnce(lc, p, env, &res)
+	case "mixed":
+		runMixed(lc, p, &res)
 	}
 	if res.Sample == nil {
 		res.Sample = map[string]any{"case": c.ID, "cfg": p.Cfg, "merges": res.Obs["merges"], "ties_decided": res.Obs["ties_decided"]}
@@ -608,6 +629,55 @@ func runLaws(lc *lawsChecker, p c02Params, res *runner.Result) {
 			}
 		}
 	}
+}
+
+// runMixed: the versions of one key arrive in snapshots of different format versions (an old producer next to current
+// ones): every pair in both orders, every triple in all six, must end in the same content.
+func runMixed(lc *lawsChecker, p c02Params, res *runner.Result) {
+	var V []Ver
+	for _, v := range domainVersions() {
+		for _, f := range []uint32{1, 2, 3} {
+			if f == 1 && !v.Del && v.Val == "" {
+				continue // format version 1 cannot express a live empty value
+			}
+			v.F = f
+			V = append(V, v)
+		}
+	}
+	cfg := lc.cfg
+	for i, a := range V {
+		for j, b := range V {
+			if i < j && effective(a, cfg).TS == effective(b, cfg).TS {
+				if p.Slice == 0 {
+					lc.checkSet([]Ver{a, b}, res)
+					res.Count("pairs", 1)
+				} else {
+					lc.fold([]Ver{a, b}, "tie discovery")
+					lc.fold([]Ver{b, a}, "tie discovery")
+				}
+			}
+		}
+	}
+	for i := p.Slice; i < len(V); i += p.Slices {
+		for j := i; j < len(V); j++ {
+			for k := j; k < len(V); k++ {
+				if V[i].F == V[j].F && V[j].F == V[k].F {
+					continue // single-format sets are the laws family
+				}
+				a, b, c := effective(V[i], cfg), effective(V[j], cfg), effective(V[k], cfg)
+				if a.TS != b.TS && b.TS != c.TS && a.TS != c.TS {
+					continue // no tie: the format plays no role in the decision, covered by the pairs
+				}
+				lc.checkSet([]Ver{V[i], V[j], V[k]}, res)
+				res.Count("triples", 1)
+				if a != b && b != c && a != c {
+					res.NonTrivial = true
+					res.Count("triples_pairwise_distinct", 1)
+				}
+			}
+		}
+	}
+	res.Count("mixed_format_versions_in_domain", int64(len(V)))
 }
 
 func runRandom(lc *lawsChecker, p c02Params, res *runner.Result) {
